@@ -205,7 +205,7 @@ CODES = {-1: 'a haplotype (compatible subset of the supplied variants) is not sp
 _B1 = ('non-coding transcript of 9..12 distinct letters; 1 variant: SNV, insertion of 1-2 nt or deletion of 1-3 nt at '
        'any position >= 3; all three reading frames')
 _B2 = ('non-coding transcript of 11 distinct letters; 2 variants, each SNV / insertion of 1-2 nt / deletion of 1-2 nt '
-       'at any positions 3..8 (overlapping, adjacent or apart); all three reading frames; up to 4 haplotypes; '
+       'at any positions 3..7 (overlapping, adjacent or apart); all three reading frames; up to 4 haplotypes; '
        'haplotypes beyond the documented adjacent-merging limit are not obligations')
 
 
@@ -241,8 +241,8 @@ def c02_one_variant(n: int, kind: int, pos: int, ln: int) -> int:
 @cond('C01', bounds='first variant SNV; ' + _B2, encodes=ENC, codes=CODES, timeout=600)
 def c01_two_variants_snv(p1: int, l1: int, k2: int, p2: int, l2: int) -> int:
     """
-    pre: 3 <= p1 <= 8 and 1 <= l1 <= 2
-    pre: 0 <= k2 <= 2 and 3 <= p2 <= 8 and 1 <= l2 <= 2
+    pre: 3 <= p1 <= 7 and 1 <= l1 <= 2
+    pre: 0 <= k2 <= 2 and 3 <= p2 <= 7 and 1 <= l2 <= 2
     post: _ >= 0
     """
     return _check(11, [_spec(0, p1, l1, 11), _spec(k2, p2, l2, 11)], 0)
@@ -251,8 +251,8 @@ def c01_two_variants_snv(p1: int, l1: int, k2: int, p2: int, l2: int) -> int:
 @cond('C01', bounds='first variant INS; ' + _B2, encodes=ENC, codes=CODES, timeout=600)
 def c01_two_variants_ins(p1: int, l1: int, k2: int, p2: int, l2: int) -> int:
     """
-    pre: 3 <= p1 <= 8 and 1 <= l1 <= 2
-    pre: 0 <= k2 <= 2 and 3 <= p2 <= 8 and 1 <= l2 <= 2
+    pre: 3 <= p1 <= 7 and 1 <= l1 <= 2
+    pre: 0 <= k2 <= 2 and 3 <= p2 <= 7 and 1 <= l2 <= 2
     post: _ >= 0
     """
     return _check(11, [_spec(1, p1, l1, 11), _spec(k2, p2, l2, 11)], 0)
@@ -261,8 +261,8 @@ def c01_two_variants_ins(p1: int, l1: int, k2: int, p2: int, l2: int) -> int:
 @cond('C01', bounds='first variant DEL; ' + _B2, encodes=ENC, codes=CODES, timeout=600)
 def c01_two_variants_del(p1: int, l1: int, k2: int, p2: int, l2: int) -> int:
     """
-    pre: 3 <= p1 <= 8 and 1 <= l1 <= 2
-    pre: 0 <= k2 <= 2 and 3 <= p2 <= 8 and 1 <= l2 <= 2
+    pre: 3 <= p1 <= 7 and 1 <= l1 <= 2
+    pre: 0 <= k2 <= 2 and 3 <= p2 <= 7 and 1 <= l2 <= 2
     post: _ >= 0
     """
     return _check(11, [_spec(2, p1, l1, 11), _spec(k2, p2, l2, 11)], 0)
@@ -271,8 +271,8 @@ def c01_two_variants_del(p1: int, l1: int, k2: int, p2: int, l2: int) -> int:
 @cond('C02', bounds='first variant SNV; ' + _B2, encodes=ENC, codes=CODES, timeout=600)
 def c02_two_variants_snv(p1: int, l1: int, k2: int, p2: int, l2: int) -> int:
     """
-    pre: 3 <= p1 <= 8 and 1 <= l1 <= 2
-    pre: 0 <= k2 <= 2 and 3 <= p2 <= 8 and 1 <= l2 <= 2
+    pre: 3 <= p1 <= 7 and 1 <= l1 <= 2
+    pre: 0 <= k2 <= 2 and 3 <= p2 <= 7 and 1 <= l2 <= 2
     post: _ >= 0
     """
     return _check(11, [_spec(0, p1, l1, 11), _spec(k2, p2, l2, 11)], 1)
@@ -281,8 +281,8 @@ def c02_two_variants_snv(p1: int, l1: int, k2: int, p2: int, l2: int) -> int:
 @cond('C02', bounds='first variant INS; ' + _B2, encodes=ENC, codes=CODES, timeout=600)
 def c02_two_variants_ins(p1: int, l1: int, k2: int, p2: int, l2: int) -> int:
     """
-    pre: 3 <= p1 <= 8 and 1 <= l1 <= 2
-    pre: 0 <= k2 <= 2 and 3 <= p2 <= 8 and 1 <= l2 <= 2
+    pre: 3 <= p1 <= 7 and 1 <= l1 <= 2
+    pre: 0 <= k2 <= 2 and 3 <= p2 <= 7 and 1 <= l2 <= 2
     post: _ >= 0
     """
     return _check(11, [_spec(1, p1, l1, 11), _spec(k2, p2, l2, 11)], 1)
@@ -291,8 +291,8 @@ def c02_two_variants_ins(p1: int, l1: int, k2: int, p2: int, l2: int) -> int:
 @cond('C02', bounds='first variant DEL; ' + _B2, encodes=ENC, codes=CODES, timeout=600)
 def c02_two_variants_del(p1: int, l1: int, k2: int, p2: int, l2: int) -> int:
     """
-    pre: 3 <= p1 <= 8 and 1 <= l1 <= 2
-    pre: 0 <= k2 <= 2 and 3 <= p2 <= 8 and 1 <= l2 <= 2
+    pre: 3 <= p1 <= 7 and 1 <= l1 <= 2
+    pre: 0 <= k2 <= 2 and 3 <= p2 <= 7 and 1 <= l2 <= 2
     post: _ >= 0
     """
     return _check(11, [_spec(2, p1, l1, 11), _spec(k2, p2, l2, 11)], 1)
